@@ -606,6 +606,14 @@ class Gen:
                     and rng.random() < 0.5:
                 c['keep_abstract'] = True
         for c in self.classes:
+            if c.get('kind') == 'plain' and not (
+                    c.get('parsed') or c.get('roster') or c.get('roster_item')
+                    or c.get('inherit_init')):
+                if rng.random() < 0.12:
+                    c['kwonly'] = ['kw_' + c['name'].lower()]
+                if rng.random() < 0.25:
+                    c['copy_args'] = True
+        for c in self.classes:
             self.add_seasoning(c)
         self.vary_defaults()
         doc_type = self.gen_doc_type()
